@@ -25,10 +25,9 @@ def sdiv(numerator, denominator):
     :return: Array
     """
 
-    if np.isscalar(numerator):
-        return np.divide(numerator, denominator, out=np.zeros_like(denominator, dtype=float), where=numerator != 0)
-    else:
-        return np.divide(numerator, denominator, out=np.zeros_like(numerator, dtype=float), where=numerator != 0)
+    # The output must have the broadcast shape - the numerator can be a 0-d array (e.g. the result of another division) when the denominator is a vector
+    out = np.zeros(np.broadcast(numerator, denominator).shape, dtype=float)
+    return np.divide(numerator, denominator, out=out, where=np.not_equal(numerator, 0))
 
 
 def vector_min(*args):
